@@ -19,15 +19,10 @@ def main():
         before = set(os.listdir(rdir)) if os.path.isdir(rdir) else set()
         ev = os.path.join(core.VERIF_DIR, 'evidence', pid + '.json')
         evsave = open(ev).read() if os.path.exists(ev) else None
-        p = subprocess.run([sys.executable, '-m', 'vfw.run', pid, '--tier', tier], cwd=core.VERIF_DIR, env=dict(os.environ, VFW_REPO=tmp), capture_output=True, text=True)
+        p = subprocess.run([sys.executable, '-m', 'vfw.run', pid, '--tier', tier], cwd=core.VERIF_DIR, env=dict(os.environ, VFW_REPO=tmp, VFW_REPLAY_DIR=os.path.join(tmp, '_replays'), VFW_EVIDENCE_DIR=os.path.join(tmp, '_evidence')), capture_output=True, text=True)
         out = p.stdout + p.stderr
         print('\n'.join([l[:220] for l in out.splitlines() if 'VIOLATION' in l or 'signature=' in l or 'HARNESS' in l or l.startswith(pid)][:10]))
         keep = os.environ.get('VFW_KEEP_REPLAYS')
-        if os.path.isdir(rdir) and not keep:
-            for fn in set(os.listdir(rdir)) - before:
-                os.remove(os.path.join(rdir, fn))
-        if evsave is not None:
-            open(ev, 'w').write(evsave)
         print('DETECTED' if p.returncode == 1 else ('HARNESS-ERROR rc=2' if p.returncode == 2 else 'MISSED'))
     finally:
         shutil.rmtree(tmp, ignore_errors=True)
